@@ -16,6 +16,12 @@ Clause → theorem (see notes/C20.md for the table):
 * the model of the code equals the stateless specification for every configuration and schedule
   ........................................................................... `C20_scenario_refines`
 
+* round 6: whatever `sync.Pool` hands out (objects with fields and the invalid flag, the pool as an oracle) ...... `C20_pool_oracle`
+  a good entry makes exactly one call and one sample ....................... `C20_entry_delivered`
+  file → reading loop → pool of instances; scenario provider → guns ........ `C20_json_end_to_end`, `C20_scenario_end_to_end`
+  a scenario's request list → steps (counts, pauses, the rejected lists) ... `C20_expand`
+  compositions with C10's / C14's regenerated definitions .................. `C20_status_documented`, `C20_chosen_cases`
+
 The timeout selection, the per-call context chain, where method / message / metadata of the call come from, the
 template cache key, the stub choice of `Bind`, the JSON / config tags and the example service's method table are
 REGENERATED from /repo's source (`Gen/GrpcGun.lean`) and proved equal to the model's in `Bridge/C20.lean`, which this
